@@ -103,22 +103,52 @@ def alg_table(rep, prog, rule):
             "Interpolation": ("resample_convolution", False),
             "SuperSampling": ("resample_super_sampling", None)}
     seen = 0
+    from ..cfg import reachable_from
+    from ..engines.formulas import _locals_in, _project
+    from ..engines.validators import subst as esubst
+    RESAMPLERS = ("resample_nearest", "resample_convolution", "resample_super_sampling")
     for v, tgt in sw.arms:
         vn = variants.get(v)
-        calls = [c for c in sw.arm_calls(tgt) if prog.call_targets(c)]
         if vn not in want:
             continue
         seen += 1
         fn_want, adaptive = want[vn]
         key = vn
-        if len(calls) != 1 or not calls[0].name.endswith(fn_want):
-            rep.bad(rule, key + "|target", f.term(sw.bb)[5], "ResizeAlg::%s is routed to %s, "
-                    "expected %s" % (vn, [c.name for c in calls], fn_want))
+        # the resampler calls this arm can reach (its own blocks and whatever follows the match)
+        reach = reachable_from(f, tgt, blocked={sw.bb})
+        calls = [c for c in f.calls() if c.bb in reach and prog.call_targets(c)
+                 and c.name.rsplit("::", 1)[-1] in RESAMPLERS]
+        names = sorted({c.name.rsplit("::", 1)[-1] for c in calls})
+        if names != [fn_want]:
+            if len(names) == 1:
+                rep.bad(rule, key + "|target", f.term(sw.bb)[5], "ResizeAlg::%s is routed to %s, "
+                        "expected %s" % (vn, names, fn_want))
+            else:
+                rep.unk(rule, key, f.term(sw.bb)[5], "ResizeAlg::%s can reach %s" % (vn, names))
+            continue
+        if len(calls) != 1:
+            rep.unk(rule, key, f.term(sw.bb)[5], "%d calls of %s reachable from the arm" % (len(calls), fn_want))
             continue
         c = calls[0]
         if adaptive is not None:
-            a = sym.operand(c.args[4])
-            if a != ("const", adaptive, "bool"):
+            a = sym.operand(c.args[4], (c.bb, "term"))
+            arm = sw.arm_blocks(tgt) | {tgt}
+            for _ in range(4):
+                # a value selected by the match: take the definition made in this arm
+                ls = [l for l in _locals_in(a) if len(f.defs().get(l[1], [])) > 1]
+                if not ls:
+                    break
+                L = ls[0]
+                ds = [d for d in f.defs()[L[1]] if d[0] in arm and d[3]]
+                if len(ds) != 1:
+                    break
+                a = _project(esubst(a, {L: sym.rvalue(ds[0][2], ds[0][0], (ds[0][0], ds[0][1]))}))
+            while a[0] == "cast":
+                a = a[2]
+            if a[0] != "const":
+                rep.unk(rule, key, c.at, "adaptive_kernel_size = %s not resolved for ResizeAlg::%s" % (fmt(a)[:60], vn))
+                continue
+            if bool(a[1]) != adaptive:
                 rep.bad(rule, key + "|adaptive", c.at, "ResizeAlg::%s passes adaptive_kernel_size "
                         "= %s, expected %s" % (vn, fmt(a), adaptive))
                 continue
